@@ -320,3 +320,7 @@ def run(rep: Report, prog: Program, tier: str) -> None:
         rep.fail(mk_finding(prog, PROP, "C14-CLOSED", close, awaits_before[0], "close() suspends before latching __isClosed: a concurrent close() would run the teardown twice"))
     else:
         rep.ok("C14-CLOSED", "close(): __isClosed assigned before the first await of the teardown", sample="must-event analysis over all paths")
+
+    # ---------------- C14-SLOTS (shared with C03)
+    from .common import description_slots_rule
+    description_slots_rule(rep, prog, PROP, "C14-SLOTS")
